@@ -728,7 +728,7 @@ Proof.
       split; [|discriminate]. intros _. eapply Pre_step; [exact HP|apply set_pc_rel|].
       rewrite set_pc_node. simpl. discriminate.
     + assert (Hst : st_of d me <> SNone) by (apply HP; exact Epc).
-      destruct (n_st (node_of d me)) eqn:Est; [exfalso; apply Hst; exact Est| | | | |];
+      destruct (n_st (node_of d me)) eqn:Est; [exfalso; apply Hst; exact Est| | | | | |];
         (apply (REC (set_pc d me PAfterSelWait)); auto;
          [ apply Inv_set_node; auto; apply Hokp; [reflexivity|reflexivity|discriminate]
          | apply set_pc_rel
